@@ -14,13 +14,16 @@ RULE = ("all ordered pairs (a,b) of same-class graphs with fully specified parit
         "MolGraphs n<=3 x all, labelled n=4 x class representatives (thorough: all 1.2M ordered labelled pairs n<=4), "
         "representatives x representatives for MolGraph n<=4 {C,H,O} (n=5 thorough), reaction graphs n<=3 with every role "
         "assignment, stereo stars / two-unit / stereo reaction universes; single-feature mutations of symmetric graphs up to "
-        "14 atoms; cross-class pairs.  Oracle: a==b must imply that a brute-force search finds a bijection preserving elements, "
+        "14 atoms; cross-class pairs; all 26 pairs of non-isomorphic graphs with <=7 vertices that 1-WL refinement cannot separate "
+        "(from the Graph Atlas, re-validated at run time) x every renumbering (7 vertices: every 7th in quick) x {MolGraph, "
+        "StereoMolGraph, explicit hydrogens}; class sequences (descriptors of different classes over identical atom tuples compared "
+        "one after the other in one process, all 24 orderings, star and spiro bis-chelate skeletons).  Oracle: a==b must imply that a brute-force search finds a bijection preserving elements, "
         "bonds, bond roles, descriptors up to symmetry and stereo changes.  distinct = ordered pairs with equal atom and bond "
         "count (the non-trivial ones)")
 ASSUMPTIONS = ["fully specified parities only (as the statement restricts)",
                "representatives x representatives covers every pair of isomorphism classes but one labelling of each; all "
                "labellings are covered up to n=4 (MolGraph) / n=3 (reaction graphs, representatives only)"]
-BUDGET = {"quick": 240, "thorough": 1800}
+BUDGET = {"quick": 600, "thorough": 1800}
 MG, SMG, CRG, SCRG = RG.MG, RG.SMG, RG.CRG, RG.SCRG
 
 
@@ -126,6 +129,10 @@ def items(tier, seed):
         for lo in range(0, len(rows), per):
             out.append({"pool": name, "lo": lo, "hi": min(len(rows), lo + per), "tier": tier})
     out.append({"cross": True, "tier": tier})
+    for i in range(len(wl_classes())):
+        out.append({"wl": i, "tier": tier})
+    for k in range(4):
+        out.append({"classseq": k, "tier": tier})
     for k in range(8):
         out.append({"derived": True, "k": k, "tier": tier})
     return out
@@ -147,6 +154,10 @@ def run_item(item):
     oc = out["outcomes"]
     if item.get("cross"):
         return _cross(item, out)
+    if "wl" in item:
+        return _wl(item, out)
+    if "classseq" in item:
+        return _classseq(item, out)
     if item.get("derived"):
         return _derived(item, out)
     rows, cols = pools(tier)[item["pool"]]
@@ -181,6 +192,142 @@ def run_item(item):
     if item["lo"] == 0:
         out["samples"].append({"pool": item["pool"], "rows": len(rows), "cols": len(cols),
                                "first_pair": [U.describe(rows[0]), U.describe(cols[-1])]})
+    return out
+
+
+def _classseq(item, out):
+    """descriptors of DIFFERENT classes over IDENTICAL atom tuples compared one after the other in one process (anything the
+    library memoises per tuple must not leak between classes): five-tuples Tetrahedral(+1/-1) / SquarePlanar on a star with four
+    distinct ligands and on a spiro bis-chelate M(N~O)2 (constitutionally equivalent donors: only the descriptor comparison can
+    tell the isomers apart), six-tuples TrigonalBipyramidal / PlanarBond / AtropBond.  Each == is checked against the oracle."""
+    oc = out["outcomes"]
+    k = item["classseq"]
+    star_atoms = [(0, "Ni"), (1, "H"), (2, "F"), (3, "Cl"), (4, "Br")]
+    star_bonds = [(0, 1), (0, 2), (0, 3), (0, 4)]
+    spiro_atoms = [(0, "Ni"), (1, "N"), (2, "O"), (3, "N"), (4, "O"), (5, "C"), (6, "C")]
+    spiro_bonds = [(0, 1), (0, 2), (0, 3), (0, 4), (1, 5), (5, 2), (3, 6), (6, 4)]
+    seq5 = [("SquarePlanar", 0), ("Tetrahedral", 1), ("Tetrahedral", -1), ("SquarePlanar", 0), ("Tetrahedral", 1)]
+    if k % 2:
+        seq5 = [("Tetrahedral", 1), ("SquarePlanar", 0), ("Tetrahedral", -1), ("Tetrahedral", 1), ("SquarePlanar", 0)]
+    atoms, bonds = (star_atoms, star_bonds) if k < 2 else (spiro_atoms, spiro_bonds)
+
+    def cmp(A, B, tag):
+        try:
+            r = U.build(A) == U.build(B)
+        except Exception as e:
+            r = "EXC:" + type(e).__name__
+        out["evals"] += 1
+        out["distinct"] += 1
+        oc["class-sequence"] = oc.get("class-sequence", 0) + 1
+        if r is True and not RI.isomorphic(A, B, roles=True, stereo=True, changes=True):
+            out["viol"].append({"sig": f"C02/SMG/class-sequence/{tag}/false-equal", "input": f"{U.key(A)}|{U.key(B)}",
+                                "what": f"{U.describe(A)} == {U.describe(B)} is True but no structure-preserving bijection exists "
+                                        f"(descriptors of other classes over the same atom tuples were compared before in this process)",
+                                "item": item, "detail": None})
+
+    for T in itertools.permutations((1, 2, 3, 4)):
+        for cls, par in seq5:
+            for lp in ((1, -1) if cls == "Tetrahedral" else (0,)):
+                A = U.mk(SMG, atoms, bonds, astereo=[(cls, (0, 1, 2, 3, 4), lp)])
+                B = U.mk(SMG, atoms, bonds, astereo=[(cls, (0, *T), par)])
+                cmp(A, B, cls)
+    # six-tuples: the same tuple is a trigonal-bipyramidal centre 0 in one graph and a bond descriptor of bond 2-3 in another
+    tb_atoms = [(0, "P"), (1, "H"), (2, "F"), (3, "Cl"), (4, "Br"), (5, "I")]
+    tb_bonds = [(0, i) for i in range(1, 6)]
+    eth_atoms = [(0, "H"), (1, "F"), (2, "C"), (3, "C"), (4, "H"), (5, "Cl")]
+    eth_bonds = [(2, 3), (2, 0), (2, 1), (3, 4), (3, 5)]
+    seq6 = [("TrigonalBipyramidal", 1), ("PlanarBond", 0), ("AtropBond", 1), ("TrigonalBipyramidal", -1), ("AtropBond", -1),
+            ("PlanarBond", 0), ("TrigonalBipyramidal", 1)]
+    if k % 2:
+        seq6 = seq6[1:] + seq6[:1]
+    for rep in range(2):
+        for T in ((0, 1, 2, 3, 4, 5), (0, 1, 2, 3, 5, 4), (1, 0, 2, 3, 4, 5), (1, 0, 2, 3, 5, 4)):
+            for cls, par in seq6:
+                if cls == "TrigonalBipyramidal":
+                    if T[0] != 0:
+                        continue
+                    for lp in (1, -1):
+                        cmp(U.mk(SMG, tb_atoms, tb_bonds, astereo=[(cls, (0, 1, 2, 3, 4, 5), lp)]),
+                            U.mk(SMG, tb_atoms, tb_bonds, astereo=[(cls, T, par)]), cls)
+                else:
+                    for lp in ((1, -1) if cls == "AtropBond" else (0,)):
+                        cmp(U.mk(SMG, eth_atoms, eth_bonds, bstereo=[(cls, (0, 1, 2, 3, 4, 5), lp)]),
+                            U.mk(SMG, eth_atoms, eth_bonds, bstereo=[(cls, T, par)]), cls)
+    return out
+
+
+@lru_cache(None)
+def wl_classes():
+    import json
+    import os
+
+    return json.load(open(os.path.join(os.path.dirname(os.path.dirname(__file__)), "data", "wl_pairs.json")))
+
+
+def _wl_equivalent(A, B):
+    """1-dimensional Weisfeiler-Lehman refinement on the disjoint union (harness-side, to validate the data file): True if the
+    stable colouring gives both graphs the same colour histogram"""
+    nodes = [(0, a) for a in A.atoms] + [(1, b) for b in B.atoms]
+    G = {0: A, 1: B}
+    col = {v: (G[v[0]].atoms[v[1]]["atom_type"], len(G[v[0]].nbrs(v[1]))) for v in nodes}
+    for _ in range(len(nodes) + 1):
+        new = {v: (col[v], tuple(sorted(col[(v[0], x)] for x in G[v[0]].nbrs(v[1])))) for v in nodes}
+        ids = {k: i for i, k in enumerate(sorted(set(new.values())))}
+        col = {v: ids[new[v]] for v in nodes}
+    return sorted(col[v] for v in nodes if v[0] == 0) == sorted(col[v] for v in nodes if v[0] == 1)
+
+
+def _wl(item, out):
+    """pairs of non-isomorphic graphs (<= 7 vertices, complete list from the Graph Atlas) that colour refinement cannot separate:
+    the isomorphism search alone has to tell them apart, under every renumbering of the second graph (n = 7: every 7th in the
+    quick tier), as MolGraph, as StereoMolGraph, and with every carbon saturated by explicit hydrogens"""
+    oc = out["outcomes"]
+    cl = wl_classes()[item["wl"]]
+    n = cl["n"]
+
+    def spec(edges, kind, hyd):
+        atoms = [(i, "C") for i in range(n)]
+        bonds = [tuple(e) for e in edges]
+        if hyd:
+            deg = {i: sum(i in e for e in edges) for i in range(n)}
+            nxt = n
+            for i in range(n):
+                for _ in range(max(0, 4 - deg[i])):
+                    atoms.append((nxt, "H"))
+                    bonds.append((i, nxt))
+                    nxt += 1
+        return U.mk(kind, atoms, bonds)
+
+    perms = list(itertools.permutations(range(n)))
+    if n >= 7 and item["tier"] == "quick":
+        perms = perms[::7]
+    for ea, eb in itertools.permutations(cl["graphs"], 2):
+        for kind, hyd in ((MG, False), (SMG, False), (MG, True)):
+            A, B = spec(ea, kind, hyd), spec(eb, kind, hyd)
+            if not _wl_equivalent(A, B) or RI.isomorphic(A, B):
+                raise RuntimeError("data file wl_pairs.json: class %d is not a WL-equivalent non-isomorphic pair" % item["wl"])
+            ra = U.build(A)
+            extra = [a for a in B.atoms if a >= n]
+            for p in (perms if not hyd else perms[::5]):
+                mp = dict(zip(range(n), p))
+                # hydrogens keep their places relative to each other but are shifted so that identifiers interleave
+                mp.update({a: a + (p[0] % 3) for a in extra})
+                if len(set(mp.values())) != len(mp):
+                    mp = dict(zip(range(n), p))
+                Bp = B.copy().relabel(mp)
+                try:
+                    r = ra == U.build(Bp)
+                except Exception as e:
+                    r = "EXC:" + type(e).__name__
+                out["evals"] += 1
+                out["distinct"] += 1
+                oc["wl-equivalent-pairs"] = oc.get("wl-equivalent-pairs", 0) + 1
+                if r is True:
+                    out["viol"].append({"sig": f"C02/{E.SHORT[kind]}/wl-equivalent{'-explicitH' if hyd else ''}/false-equal",
+                                        "input": f"{item['wl']}|{ea}|{eb}|{p}",
+                                        "what": f"{U.describe(A)} == {U.describe(Bp)} is True although the graphs are not isomorphic "
+                                                f"(they are 1-WL equivalent)", "item": item, "detail": None})
+    out["samples"].append({"wl_class": item["wl"], "n": n, "graphs": cl["graphs"]})
     return out
 
 
